@@ -39,8 +39,9 @@ LEVEL_TEXT = ("Lean theorems over ℝ / IEEE classes: a component outside [lower
               "configurations; the statement evaluated on CosmoLikelihood.likelihood with the prior box stated BY NAME from the user's "
               "bound dictionaries (log10 for the scatters sampled in log-space), every component pushed just outside its own bounds.")
 LEVEL_NOTE = ("partial: non-NaN behaviour of astropy/numpy/scipy inside the box is a hypothesis on the externals (explored by the "
-              "boundary-biased search); float overflow outside the model; the interpolators' own range errors (scipy) are covered by C09/C10 (draws "
-              "stay inside the grid), not re-proved here")
+              "boundary-biased search); float overflow outside the model; the kinematic-scaling interpolators raise no range error at all — anisotropy, inner-slope "
+              "and M/L draws stay inside the grid (C09), and a slope drawn from its global population beyond its axis is extrapolated in every "
+              "dimension (C10 no_range_error; before the F22 repair the multi-axis interpolator refused such a draw inside the box)")
 TECHNIQUE = "Lean 4 proof (list induction, IEEE class algebra, real algebra of a cubic) + correspondence"
 
 COSMO_BOX = {
